@@ -21,6 +21,23 @@ def run(prop, tier, seed, replay=None):
             ctx.cleanup()
 
 
+def reopen_sessions(ctx, n):
+    """C03 on streams: sessions in which the acknowledgements travel in the OPENING request of a
+    new stream (harness/cmd/streamcheck reopen.go); returns the StreamTrace violations."""
+    vlib.build_harness(ctx, ["streamcheck"])
+    scen = [{"id": "reopen-%d" % i, "eager": "reopen",
+             "steps": [{"op": "Open", "fcM": 10, "fcB": 1000}, {"op": "Publish", "sizes": [10] * (2 + i % 3)}]} for i in range(n)]
+    sp = os.path.join(ctx.scratch, "reopen.ndjson")
+    vlib.write_scenarios(sp, scen)
+    tp = os.path.join(ctx.scratch, "reopen_trace.ndjson")
+    r = subprocess.run([os.path.join(ctx.bin, "streamcheck"), "-scenarios", sp, "-out", tp, "-workers", "6", "-scratch", ctx.sub("db")],
+                       capture_output=True, text=True, timeout=1800)
+    if r.returncode != 0:
+        raise ToolError("streamcheck (reopen) failed:\n" + (r.stdout + r.stderr)[-2000:])
+    val = vlib.validate(ctx, tp, runmod="StreamTraceRun", chunks=2)
+    return scen, val
+
+
 def _run(ctx, replay):
     prop, tier, seed = ctx.prop, ctx.tier, ctx.seed
     vlib.build_harness(ctx, ["streamcheck"])
@@ -60,7 +77,7 @@ def _run(ctx, replay):
     first = {}
     for v in sorted(val["viols"], key=lambda v: (v["tr"], v["i"])):
         first.setdefault(v["tr"], v)
-    mine = [v for v in first.values() if v["clause"].startswith("C11")]
+    mine = [v for v in first.values() if v["clause"].startswith(prop)]
     new, hits = vlib.split_known(prop, mine)
     for h in hits.values():
         print("KNOWN-FINDING: property=%s %s (%d sessions, e.g. %s step %d)" % (prop, h["k"]["text"], h["n"], h["ex"]["tr"], h["ex"]["i"]))
